@@ -199,6 +199,11 @@ def run_structure_vector(vec):
     try:
         if variant % 2:
             lm = cls(**kw)
+            if variant % 4 == 3:
+                # the model is USED once with other parameters (tables read) before it gets the ones compared below: whatever it
+                # remembers from the first parameterisation must not enter the second table
+                lm.set_prms(**{names[0]: a1 * 1.5, names[1]: a2 * 1.25})
+                _ = np.array(lm.sf), np.array(lm.pdf)
             lm.set_prms(**{names[0]: a1, names[1]: a2})
         else:
             lm = cls(**kw, **{names[0]: a1, names[1]: a2})
